@@ -10,4 +10,4 @@ Extraction "model.ml"
   lua_for_prefix nelua_prefix
   climb nelua_table lua_table
   lua_run nelua_run mk_fdef mk_w f_se ceval comp
-  vd_effects src_effects vd_wf vardecl_policy.
+  vd_effects src_effects vd_wf vardecl_policy analyzer_se_policy.
